@@ -32,7 +32,7 @@ def c03(tier):
     obs = [B.tables_ob("C03", d, n) for d, n in B.DIALECTS]
     obs += [B.line_ob("C03", d, n, "CONFORM", L) for d, n in B.DIALECTS]
     obs += [B.framing_ob("C03", e, "FRAME", N) for e in ("BE", "LE")]
-    obs += [B.dispatch_ob("C03")]
+    obs += [B.main_ob("C03", "FILES", ndebug=True)]
     return obs, dict(assumptions=BASIC_ASSUME, precheck=B.oracle_precheck)
 
 @prop("C08")
